@@ -365,6 +365,8 @@ fn settings(r: &mut Sm, k: usize) -> Vec<Setting> {
     // coordinates (all 2 450 ordered pairs are tested for independence)
     v.push(Setting { spec: Spec::plain(Wrap::So3, CK::So3 { bounds: Some((r.quat(), 0.07)) }, None), via: "direct" });
     v.push(Setting { spec: Spec::plain(Wrap::R, CK::R { n: 50, bounds: Some(rb(r, 50)) }, None), via: "direct" });
+    // sides of equal length at different offsets
+    v.push(Setting { spec: Spec::plain(Wrap::R, CK::R { n: 3, bounds: Some(vec![(0.0, 10.0), (2.0, 12.0), (-7.0, 3.0)]) }, None), via: "direct" });
     // a box with more than 8 / 16 coordinates
     v.push(Setting { spec: Spec::plain(Wrap::R, CK::R { n: 17, bounds: Some(rb(r, 17)) }, None), via: "direct" });
     for i in 0..k {
